@@ -160,7 +160,7 @@ claim("C20", "E1", "hypothesis generated setup chains through Manu.run vs per-st
       "per compatible worker for all vms (multi-vm tools), with the step's and the user's parameters, never for "
       "unselected vms, in chain order; the return code is 1 exactly when a step failed or raised, later steps still run. "
       "One defect found and fixed (create/clean/collect dropped the return code).",
-      _E1NOTE + " Chains do not repeat a step and exclude start/stop/run/list/update; a raising step only with one worker.")
+      _E1NOTE + " Chains (steps may repeat) exclude start/stop/run/list/update; a raising step only with one worker.")
 
 _pending = "check not built yet in this round (planned in DESIGN.md section 4); not claimed until it runs"
 for _i in range(1, 21):
